@@ -395,7 +395,21 @@ def leaves_ok(e, obs):
     if e[0] == 'any': return True
     return leaves_ok(e[1], obs) and leaves_ok(e[2], obs)
 
+def g_expr(e, obs):
+    import families as F
+    if e[0] in ('parse', 'any'):
+        st = obs.struct.get(dump(e))
+        if st is None:
+            if e[0] == 'any': return '(Leaf [mkBS (Upper Unbounded) (Lower Unbounded)])'
+            return None
+        return '(Leaf %s)' % F.g_range(st)
+    a = g_expr(e[1], obs); b = g_expr(e[2], obs)
+    if a is None or b is None: return None
+    return '(%s %s %s)' % ('Isect' if e[0] == 'isect' else 'Diff', a, b)
+
 def eval_trees(triples, tier, rng):
+    import families as F
+    certs = []
     obs = Obs(triples); fails = []; nontrivial = 0
     dist = {'trees': 0, 'result_none': 0, 'depth>=2': 0, 'leaf_unparseable': 0, 'reparsed': 0}
     def depth(e): return 0 if e[0] in ('parse', 'any') else 1 + max(depth(e[1]), depth(e[2]))
@@ -414,6 +428,9 @@ def eval_trees(triples, tier, rng):
         if depth(e) >= 2: dist['depth>=2'] += 1
         if obs.struct.get(key) is None: dist['result_none'] += 1
         else: nontrivial += 1
+        if len(certs) < 2000 and rng.random() < 0.3 and key in obs.struct and len(key) < 400:
+            ge = g_expr(e, obs)
+            if ge: certs.append('eval %s = Ok %s' % (ge, F.g_range(obs.struct[key] or [])))
         if leaves_ok(e, obs) or True:
             for v in w:
                 d = denote_opt(e, obs, v)
@@ -437,7 +454,7 @@ def eval_trees(triples, tier, rng):
                 if sd.startswith('(bad') or sd == 'panic' or sd.endswith(' none)'):
                     fails.append(fail('%s prints as `%s`, which does not round-trip through parse/serde: %s' % (rtext(e), pr, sd[:120]),
                                       obs.case_of[('serde_r', key)], input=[rtext(e), pr], kind='tree-reparse'))
-    return {'failures': fails, 'nontrivial': nontrivial, 'distribution': dist, 'certs': []}
+    return {'failures': fails, 'nontrivial': nontrivial, 'distribution': dist, 'certs': certs}
 
 def denote_opt(e, obs, v):
     """Boolean algebra over bounds membership of the leaves (an unparseable leaf is the empty set)"""
